@@ -145,7 +145,7 @@ Proof. intros H. unfold drop_and_send_in_reply_to. brk; eauto 8 with adm. Qed.
 Lemma adm_drop_and_reset s : Adm s0 s -> Adm s0 (drop_and_reset s).
 Proof. intros H. unfold drop_and_reset. eauto with adm. Qed.
 Lemma adm_enqueue_bytes s m : Adm s0 s -> Adm s0 (enqueue_bytes_and_send s m).
-Proof. intros H. unfold enqueue_bytes_and_send. eauto with adm. Qed.
+Proof. intros H. unfold enqueue_bytes_and_send. destruct (is_logged_on (s_st s)); eauto with adm. Qed.
 Hint Resolve adm_send adm_drop_and_send adm_drop_and_reset adm_enqueue_bytes : adm.
 
 Lemma adm_send_logon s b ir : Adm s0 s -> Adm s0 (send_logon_in_reply_to s b ir).
